@@ -280,7 +280,7 @@ func (x *VC) posOf(i ssa.Instruction) string {
 	}
 	pp := x.eng.prog.Fset.Position(p)
 	rel := pp.Filename
-	if r, err := filepath.Rel("/repo", pp.Filename); err == nil && !strings.HasPrefix(r, "..") {
+	if r, err := filepath.Rel(repoRoot, pp.Filename); err == nil && !strings.HasPrefix(r, "..") {
 		rel = r
 	}
 	return fmt.Sprintf("%s:%d", rel, pp.Line)
